@@ -90,6 +90,17 @@ def effects_pure(prog, f, nfields, eff_mut):
     m = match(ro, ("mut", SELF, ("call", "*::translate_mut", "_", (SELF, BY)), ()))
     if m is not None:
         return dict(eff_mut), ro
+    # built through a plain constructor function (`Self::new(self.top_left + by, self.size)`) or a helper new to the
+    # tree: read the one path summary with those inlined
+    from mirq.paths import Paths, Unsupported
+    try:
+        summs = Paths(prog, inline=lambda g: prog.is_new(g) or g.name in ("new", "with_top_left")).of(f)
+    except Unsupported:
+        summs = []
+    if len(summs) == 1 and not summs[0].effects:
+        r = norm_clone(strip_refs(summs[0].ret))
+        if r[0] == "agg" and len(r[2]) == nfields:
+            return {i: classify(op, i) for i, op in enumerate(r[2])}, r
     return {i: "?" for i in range(nfields)}, ro
 
 
